@@ -11,8 +11,11 @@ Vocabulary: a `World` is a list of datasets; `ds.ownMask = some m` means the sel
 evaluated on `ds` (giving `m`), `none` means `IncompatibleAttribute`; `ds.joins` is `_key_joins`
 in dict order; `Impl.getMask w d v` is `datasets[d].get_mask(state, view=v)` as coded
 (`_recursing` flags, first partner that can evaluate wins, the four shapes, the n-n byte path with
-the F6/F6b repairs, the F16 self-join repair); `veq` is equality *by value* of two stored keys
-(promotion to the common dtype, IEEE `==`).
+the F6/F6b repairs, the F16 self-join repair); `veq` is equality of two stored keys as numpy compares
+values (promotion to the common dtype, IEEE `==`); `veqX` is **exact** equality by value (`veq` and
+both promotions value-preserving) — they differ only when a 64-bit integer that float64 cannot
+represent meets a float key (known finding F-C11d); `Spec.rowMatch` / `specOk` use `veqX`,
+`Np.rowMatch` uses `veq`.
 -/
 namespace GlueVerif.C11
 open GlueVerif.Joins GlueVerif.Joins.Lemmas
@@ -87,7 +90,7 @@ theorem join_1_1 (L R : Dataset) (j : Join) (mR : List Bool) (a b : Nat)
   obtain ⟨m, h1, h2, h3⟩ := propagate_impl_iff L j R mR hok
   refine ⟨m, h1, h2, fun i lrow hi => ?_⟩
   rw [h3 i lrow hi]
-  simp only [ha, hb, Spec.rowMatch, List.length_singleton, and_self, if_true, rowKeys_single]
+  simp only [ha, hb, Np.rowMatch, List.length_singleton, and_self, if_true, rowKeys_single]
 
 /-- **1-n.** One key column here, several there: row `i` is selected iff its key equals any of
 the keys of some selected partner row. -/
@@ -102,7 +105,7 @@ theorem join_1_n (L R : Dataset) (j : Join) (mR : List Bool) (a : Nat)
   obtain ⟨m, h1, h2, h3⟩ := propagate_impl_iff L j R mR hok
   refine ⟨m, h1, h2, fun i lrow hi => ?_⟩
   rw [h3 i lrow hi]
-  simp only [ha, Spec.rowMatch, List.length_singleton, hb, and_false, if_false, hne, if_true,
+  simp only [ha, Np.rowMatch, List.length_singleton, hb, and_false, if_false, hne, if_true,
     rowKeys_single, List.any_eq_true]
 
 /-- **n-1.** Several key columns here, one there: row `i` is selected iff any of its keys equals
@@ -117,7 +120,7 @@ theorem join_n_1 (L R : Dataset) (j : Join) (mR : List Bool) (b : Nat)
   obtain ⟨m, h1, h2, h3⟩ := propagate_impl_iff L j R mR hok
   refine ⟨m, h1, h2, fun i lrow hi => ?_⟩
   rw [h3 i lrow hi]
-  simp only [hb, Spec.rowMatch, List.length_singleton, ha, false_and, if_false, if_true,
+  simp only [hb, Np.rowMatch, List.length_singleton, ha, false_and, if_false, if_true,
     rowKeys_single, List.any_eq_true]
 
 /-- **n-n.** The same number (≥ 2) of key columns on both sides: row `i` is selected iff its key
@@ -134,7 +137,7 @@ theorem join_n_n (L R : Dataset) (j : Join) (mR : List Bool)
   refine ⟨m, h1, h2', fun i lrow hi => ?_⟩
   rw [h3 i lrow hi]
   have h11 : ¬ (j.own.length = 1 ∧ j.oth.length = 1) := by omega
-  unfold Spec.rowMatch
+  unfold Np.rowMatch
   simp only [if_neg h11, if_pos hn, List.all_eq_true]
 
 /-! ## The byte path -/
@@ -182,18 +185,68 @@ theorem join_view (w : World) (d : Nat) (idx : List Nat) :
   | nil => rfl
   | cons p ps => exact along_view Impl.rowMatch w p.1 p.2 (some idx)
 
-/-- On a well-formed world the code computes exactly what the by-value Spec computes, for every
-fuel, dataset, flag set and view. -/
-theorem impl_eq_spec (w : World) (hw : worldOk w = true) (fuel d : Nat) (G : List Nat) (v : View) :
-    getMask Impl.joinMask w fuel d G v = getMask Spec.joinMask w fuel d G v :=
+/-- On a well-formed world the code computes exactly the membership by value *as numpy compares
+values* (`Np`: paired items promoted to their common dtype), for every fuel, dataset, flag set and view. -/
+theorem impl_eq_np (w : World) (hw : worldOk w = true) (fuel d : Nat) (G : List Nat) (v : View) :
+    getMask Impl.joinMask w fuel d G v = getMask Np.joinMask w fuel d G v :=
   getMask_impl_eq_spec w hw fuel d G v
 
+/-- numpy's promoted comparison **is** exact comparison by value as long as no join compares a 64-bit
+integer that float64 cannot represent with a float key (`exactOk`). -/
+theorem np_eq_spec (w : World) (hx : exactOk w = true) (fuel d : Nat) (G : List Nat) (v : View) :
+    getMask Np.joinMask w fuel d G v = getMask Spec.joinMask w fuel d G v :=
+  getMask_np_eq_spec w hx fuel d G v
+
+/-- Hence on such worlds the code computes exactly what the exact by-value Spec computes. -/
+theorem impl_eq_spec (w : World) (hw : worldOk w = true) (hx : exactOk w = true)
+    (fuel d : Nat) (G : List Nat) (v : View) :
+    getMask Impl.joinMask w fuel d G v = getMask Spec.joinMask w fuel d G v := by
+  rw [impl_eq_np w hw, np_eq_spec w hx]
+
+/-- Row by row, exact membership implies numpy membership in every shape: promotion can only *add*
+matches (false positives), never lose one. -/
+theorem spec_rowMatch_imp_np (n1 n2 : Nat) (l r : List Key) (h : Spec.rowMatch n1 n2 l r = true) :
+    Np.rowMatch n1 n2 l r = true := by
+  have hO : ∀ a b : Option Key, veqXO a b = true → veqO a b = true := by
+    intro a b hab
+    cases a with
+    | none => cases hab
+    | some a =>
+      cases b with
+      | none => cases hab
+      | some b => exact veq_of_veqX a b hab
+  unfold Spec.rowMatch at h
+  unfold Np.rowMatch
+  split
+  · rename_i h11; rw [if_pos h11] at h; exact hO _ _ h
+  · rename_i h11
+    rw [if_neg h11] at h
+    split
+    · rename_i hnn
+      rw [if_pos hnn, List.all_eq_true] at h
+      rw [List.all_eq_true]
+      exact fun p hp => veq_of_veqX _ _ (h p hp)
+    · rename_i hnn
+      rw [if_neg hnn] at h
+      split
+      · rename_i h1
+        rw [if_pos h1, List.any_eq_true] at h
+        obtain ⟨b, hb, hv⟩ := h
+        exact List.any_eq_true.mpr ⟨b, hb, hO _ _ hv⟩
+      · rename_i h1
+        rw [if_neg h1, List.any_eq_true] at h
+        obtain ⟨a, ha, hv⟩ := h
+        exact List.any_eq_true.mpr ⟨a, ha, hO _ _ hv⟩
+
 /-- **The property, as the driver checks it** (`implok` whenever `p`): on every well-formed world
-the answer of `get_mask` is accepted by the oracle — it is the by-value propagation along an
-admissible join path, or `incompatible` when no dataset reachable through joins can evaluate. -/
-theorem join_correct (w : World) (d : Nat) (v : View) (hw : worldOk w = true) :
+in which no join compares a float64-unrepresentable 64-bit integer with a float key, the answer
+of `get_mask` is accepted by the oracle — it is the propagation by **exact** value along an admissible
+join path, or `incompatible` when no dataset reachable through joins can evaluate.
+`_partial`-free inside `exactOk`; outside it the full statement (no `exactOk`) is false:
+`int64_float_promotion` below. -/
+theorem join_correct (w : World) (d : Nat) (v : View) (hw : worldOk w = true) (hx : exactOk w = true) :
     specOk w d v (Impl.getMask w d v) = true :=
-  specOk_impl w d v hw
+  specOk_impl w d v hw hx
 
 /-! ## Non-vacuity and witnesses -/
 
@@ -211,6 +264,7 @@ def exWorld : World :=
       joins := [⟨1, [0], [1]⟩, ⟨0, [0], [0]⟩] } ]
 
 example : worldOk exWorld = true := by decide
+example : exactOk exWorld = true := by decide
 example : Impl.getMask exWorld 0 none = .mask [false, false, true] := by decide
 example : Impl.getMask exWorld 1 none = .mask [false, true, false] := by decide
 example : Impl.getMask exWorld 1 (some [1, 1, 0]) = .mask [true, true, false] := by decide
@@ -258,5 +312,43 @@ theorem nn_float_specials :
                     [(f8, .f 9221120237041090560), (f8, .f 4607182418800017408)] = true ∧
     Spec.rowMatch 2 2 [(f8, .f 9221120237041090560), (f8, .f 4607182418800017408)]
                       [(f8, .f 9221120237041090560), (f8, .f 4607182418800017408)] = false := by decide
+
+/-- 2^53 as float64, 1.0 as float64 -/
+def f2p53 : Nat := 4845873199050653696
+def fOne : Nat := 4607182418800017408
+
+/-- **Mixed dtypes inside one dataset, values at the edge of float64.** Key tuples
+`(int64 2^53+1, float64 1.0)` and `(int64 2^53, float64 1.0)` differ; the byte path (each *pair*
+of columns promoted on its own) keeps them apart, as the Spec demands.  Any promotion *across* the
+columns of one dataset (e.g. `np.column_stack`) would identify them. -/
+theorem nn_mixed_columns_exact :
+    nnMatch [(i8, .i 9007199254740993), (f8, .f fOne)] [(i8, .i 9007199254740992), (f8, .f fOne)] = false ∧
+    Spec.rowMatch 2 2 [(i8, .i 9007199254740993), (f8, .f fOne)] [(i8, .i 9007199254740992), (f8, .f fOne)] = false ∧
+    nnMatch [(i8, .i 9007199254740993), (f8, .f fOne)] [(i8, .i 9007199254740993), (f8, .f fOne)] = true ∧
+    Spec.rowMatch 2 2 [(i8, .i 9007199254740993), (f8, .f fOne)] [(i8, .i 9007199254740993), (f8, .f fOne)] = true := by
+  decide +kernel
+
+/-- int64 keys `2^53 + 1`, `2^53` joined 1-1 to a float64 key `2^53` (selected). -/
+def exPromo : World :=
+  [ { dts := [i8], rows := [[.i 9007199254740993], [.i 9007199254740992], [.i 5]], ownMask := none,
+      joins := [⟨1, [0], [0]⟩] },
+    { dts := [f8], rows := [[.f f2p53]], ownMask := some [true], joins := [⟨0, [0], [0]⟩] } ]
+
+/-- **F-C11d witness (known finding).** An int64 key column *paired with* a float64 key column is
+compared in float64 (`np.result_type(int64, float64)`; `np.isin` in the 1-1 / 1-n / n-1 branches,
+`common_key_arrays` in the n-n branch): `2^53 + 1` is rounded to `2^53` and selected although no
+selected key has that value.  The world is well-formed, only `exactOk` fails; the exact Spec rejects
+the code's answer and accepts `[false, true, false]`. -/
+theorem int64_float_promotion :
+    veq (i8, .i 9007199254740993) (f8, .f f2p53) = true ∧
+    veqX (i8, .i 9007199254740993) (f8, .f f2p53) = false ∧
+    veqX (i8, .i 9007199254740992) (f8, .f f2p53) = true ∧
+    nnMatch [(i8, .i 9007199254740993), (i8, .i 1)] [(f8, .f f2p53), (i8, .i 1)] = true ∧
+    Spec.rowMatch 2 2 [(i8, .i 9007199254740993), (i8, .i 1)] [(f8, .f f2p53), (i8, .i 1)] = false ∧
+    worldOk exPromo = true ∧ exactOk exPromo = false ∧
+    Impl.getMask exPromo 0 none = .mask [true, true, false] ∧
+    specOk exPromo 0 none (.mask [true, true, false]) = false ∧
+    specOk exPromo 0 none (.mask [false, true, false]) = true := by
+  decide +kernel
 
 end GlueVerif.C11
